@@ -97,6 +97,25 @@ v('C07', 'fire', KA, 'cho_solve((L, True), HP', 'cho_solve((L, False), HP')
 v('C07', 'fire', KA, 'S = HP @ H.T + R', 'S = HP @ H.T')
 v('C07 C19', 'fire', KA, 'K = cho_solve((L, True), HP, overwrite_b=True).T', 'K = cho_solve((L, True), P, overwrite_b=True).T')
 v('C07', 'silent', KA, 'U = np.eye(len(x)) - K.dot(H)', 'U = np.identity(len(x)) - K @ H')
+_W_OLD = """    result = angle % 360
+    if is_pandas or result.ndim > 0:
+        result[result < -180] += 360
+        result[result > 180] -= 360
+    elif result < -180:
+        result += 360
+    elif result > 180:
+        result -= 360
+    return result"""
+v('C18', 'fire', 'util.py', _W_OLD, '    return (angle + 180) % 360 - 180', 'seeded C18 round 2: one-liner reduces into [-180, 180)')
+v('C18', 'silent', 'util.py', _W_OLD, '    return 180 - (180 - angle) % 360', 'one-liner that reduces into (-180, 180]')
+v('C18', 'silent', 'util.py', _W_OLD, '    return -((180 - angle) % 360 - 180)', 'negated one-liner into (-180, 180]')
+v('C18', 'fire', 'util.py', _W_OLD, '    return 180 - (180 + angle) % 360', 'one-liner with the sign of the angle flipped')
+v('C18', 'silent', 'util.py', _W_OLD, '    result = angle % 360\n    return np.where(result > 180, result - 360, result)', 'np.where formulation')
+v('C18', 'fire', 'util.py', _W_OLD, '    result = angle % 360\n    return np.where(result >= 180, result - 360, result)', 'np.where formulation with the boundary on the wrong side')
+v('C19 C16', 'fire', 'earth.py', '        return np.array([0, 0, g])', '        return np.array([0, 0, -g])', 'scalar-form arm of gravity_n edited alone')
+v('C19 C16', 'fire', 'earth.py', '    return result[0] if lat.ndim == 0 else result', '    return result[0] if lat.ndim == 0 else -result', 'stacked-form arm of rate_n edited alone')
+v('C19 C16', 'fire', 'earth.py', '        result[:, 2] = g', '        result[:, 1] = g', 'stacked-form arm of gravity_n writes the wrong component')
+v('C19 C16', 'silent', 'earth.py', '    lat = np.asarray(lat)\n    n = 1 if lat.ndim == 0 else len(lat)', '    lat = np.asarray(lat)\n    n = len(lat) if lat.ndim > 0 else 1', 'inverted dispatch spelling')
 v('C15 C01', 'fire', 'strapdown.py', 'dt = np.diff(imu.index).reshape(-1, 1)', 'dt = np.round(np.diff(imu.index), 6).reshape(-1, 1)', 'seeded C15 round 2: sampling intervals rounded to the microsecond')
 v('C17 C05', 'fire', 'error_model.py', 'result[:, 2, 1] = -sin[:, 2] * sin[:, 1] / cos[:, 1]', 'result[:, 2, 1] = -sin[:, 2] * sin[:, 1] / cos[:, 0]', 'seeded C17 round 2: heading-error entry divides by cos(roll)')
 v('C13 C02', 'fire', K, '        lla[j + 1, 2] = lla[j, 2] - V3 * dt', '        if with_altitude:\n            lla[j + 1, 2] = lla[j, 2] - V3 * dt\n        else:\n            lla[j + 1, 2] = lla[0, 2]', 'seeded C13 round 2: frozen altitude taken from row 0 of the buffer')
